@@ -1,5 +1,5 @@
 """C02 - directed incidence integrity (tail/head vs out/in) under every history (DESIGN §2 C02)."""
-from .. import snap
+from .. import snap, suite
 from . import common
 
 PID = "C02"
@@ -10,6 +10,7 @@ RULE = (
     "case = one seeded edit history (<= 25 ops from the DiHypergraph mutator alphabet incl. cleanup and in-place relabelling) "
     "from a constructible start state; one evaluation = the directed invariant checked after one op (returned or raised). "
     "distinct_nontrivial = distinct (op name, outcome, canonical post-state) triples where the op changed the state or raised"
+    " | suite: the repository's own tests run under xgimon/suite_plugin.py; every outermost public boundary call on a network is one more evaluation"
 )
 ASSUMPTIONS = [
     "labels: ints, gapped/negative ints, strings; explicit edge IDs incl. 0, True, 2.0, non-increasing; nodes in both head and tail; None / empty members and bad directions in hostile episodes",
@@ -20,15 +21,18 @@ ASSUMPTIONS = [
 
 def plan(tier):
     if tier == "quick":
-        return {"hostile": 4500, "steered": 2200, "start": 1000}
-    return {"hostile": 400000, "steered": 240000, "start": 80000}
+        return {"hostile": 4500, "steered": 2200, "start": 1000, "suite": 1}
+    return {"hostile": 400000, "steered": 240000, "start": 80000, "suite": 1}
 
 
 def floors(tier):
     f = {f"op:{n}": 20 for n in common.op_names(CLS)}
     f.update({"post-raise-evaluations": 50, "outcome:returned": 1000, "changed-state": 500})
+    f["suite:evaluations"] = 50  # boundary calls of the repository's own tests observed by the same oracle
     return f
 
 
 def run_case(mon, kind, idx, rng):
+    if kind == "suite":  # the repository's own tests as a workload, observed by xgimon/suite_plugin.py
+        return suite.run(mon, PID, mon.tier)
     common.invariant_episode(mon, PID, CLS, lambda D: snap.inv_directed(D, deep=True), kind, rng)
